@@ -6,6 +6,7 @@ import (
 	"fmt"
 	"sort"
 	"strings"
+	"sync"
 	"time"
 
 	"github.com/volatiletech/authboss/v3"
@@ -204,6 +205,7 @@ type rmToken struct{ pid, hash string }
 // DB is the simulated database. Copy semantics on every boundary; every call
 // is a numbered seam call subject to fault injection.
 type DB struct {
+	mu   sync.Mutex // a database round trip is a real synchronisation point
 	w    *World
 	rows map[string]*Row
 	// order keeps insertion order so that scans are deterministic.
@@ -221,6 +223,12 @@ func (d *DB) wrap(r *Row) authboss.User {
 }
 
 func (d *DB) put(r *Row) {
+	d.mu.Lock()
+	defer d.mu.Unlock()
+	d.putNL(r)
+}
+
+func (d *DB) putNL(r *Row) {
 	if _, ok := d.rows[r.PID]; !ok {
 		d.order = append(d.order, r.PID)
 	}
@@ -228,6 +236,12 @@ func (d *DB) put(r *Row) {
 }
 
 func (d *DB) get(pid string) *Row {
+	d.mu.Lock()
+	defer d.mu.Unlock()
+	return d.getNL(pid)
+}
+
+func (d *DB) getNL(pid string) *Row {
 	r, ok := d.rows[pid]
 	if !ok {
 		return nil
@@ -301,10 +315,12 @@ func (d *DB) Save(ctx context.Context, user authboss.User) error {
 	case faultNotFound:
 		return authboss.ErrUserNotFound
 	}
+	d.mu.Lock()
+	defer d.mu.Unlock()
 	if _, ok := d.rows[r.PID]; !ok {
 		return authboss.ErrUserNotFound
 	}
-	d.put(r)
+	d.putNL(r)
 	return nil
 }
 
@@ -321,13 +337,15 @@ func (d *DB) Create(ctx context.Context, user authboss.User) error {
 	case faultFound:
 		return authboss.ErrUserFound
 	}
+	d.mu.Lock()
+	defer d.mu.Unlock()
 	if _, ok := d.rows[r.PID]; ok {
 		return authboss.ErrUserFound
 	}
 	if r.Email == "" && !d.w.Cfg.UseUsername {
 		r.Email = r.PID
 	}
-	d.put(r)
+	d.putNL(r)
 	return nil
 }
 
@@ -338,6 +356,8 @@ func (d *DB) LoadByConfirmSelector(ctx context.Context, selector string) (authbo
 	case faultNotFound:
 		return nil, authboss.ErrUserNotFound
 	}
+	d.mu.Lock()
+	defer d.mu.Unlock()
 	if selector != "" {
 		for _, p := range d.order {
 			if d.rows[p].ConfirmSelector == selector {
@@ -355,6 +375,8 @@ func (d *DB) LoadByRecoverSelector(ctx context.Context, selector string) (authbo
 	case faultNotFound:
 		return nil, authboss.ErrUserNotFound
 	}
+	d.mu.Lock()
+	defer d.mu.Unlock()
 	if selector != "" {
 		for _, p := range d.order {
 			if d.rows[p].RecoverSelector == selector {
@@ -369,6 +391,8 @@ func (d *DB) AddRememberToken(ctx context.Context, pid, token string) error {
 	if d.w.seam("db.AddRememberToken", pid) == faultErr {
 		return errInjected
 	}
+	d.mu.Lock()
+	defer d.mu.Unlock()
 	d.rm = append(d.rm, rmToken{pid, token})
 	return nil
 }
@@ -377,6 +401,8 @@ func (d *DB) DelRememberTokens(ctx context.Context, pid string) error {
 	if d.w.seam("db.DelRememberTokens", pid) == faultErr {
 		return errInjected
 	}
+	d.mu.Lock()
+	defer d.mu.Unlock()
 	var keep []rmToken
 	for _, t := range d.rm {
 		if t.pid != pid {
@@ -394,6 +420,8 @@ func (d *DB) UseRememberToken(ctx context.Context, pid, token string) error {
 	case faultNotFound:
 		return authboss.ErrTokenNotFound
 	}
+	d.mu.Lock()
+	defer d.mu.Unlock()
 	for i, t := range d.rm {
 		if t.pid == pid && t.hash == token {
 			d.rm = append(d.rm[:i:i], d.rm[i+1:]...)
